@@ -4,7 +4,7 @@
    S = the ECMAScript operations on the mathematical value [num_sem]. *)
 From Coq Require Import ZArith Bool List SpecFloat.
 From Verif.Base Require Import F64.
-From Verif.C05 Require Import Model Proofs Proofs2 Proofs3 Proofs4 Refuted.
+From Verif.C05 Require Import Model Proofs Proofs2 Proofs3 Proofs4 Proofs5 Refuted.
 Local Open Scope Z_scope.
 
 (* 1. one mathematical value has exactly one canonical, well-formed representation *)
@@ -71,10 +71,20 @@ Proof. exact Proofs4.toInt32_eq_spec. Qed.
 Theorem toUint32_eq_spec : forall a, canon a = true -> toUint32 a = ToUint32_spec (val a).
 Proof. exact Proofs4.toUint32_eq_spec. Qed.
 
-(* ---- open findings: the transcription of the current tree does not have the full-strength property ---- *)
-Theorem mul_zero_sign_refuted : exists a b, canon a = true /\ canon b = true /\
-  num_sem (op_mul a b) <> num_sem (S_bin BMul a b).
-Proof. exact Refuted.mul_zero_sign_refuted. Qed.
+(* 8. well-formedness of the float payloads.  Unconditional: the canonicaliser keeps it and float64(i) has
+      it on the safe range.  For the arithmetic the closure is proved GIVEN that SpecFloat's rounding
+      primitives return valid_binary values ([prims_valid]: Flocq proves that with the real-number axioms;
+      it is an explicit premise here, not an assumption hidden in the context). *)
+Theorem floatToValue_wf : forall f, valid f = true -> wf (floatToValue f) = true.
+Proof. exact Proofs5.floatToValue_wf. Qed.
+Theorem of_Z_safe_valid : forall z, Z.abs z <= two53 -> valid (of_Z z) = true.
+Proof. exact Proofs5.of_Z_safe_valid. Qed.
+Theorem wf_closed_given_prims : prims_valid ->
+  (forall o a, wf a = true -> wf (I_un o a) = true) /\
+  (forall o a b, wf a = true -> wf b = true -> wf (I_bin o a b) = true).
+Proof. exact Proofs5.wf_closed_given_prims. Qed.
+
+(* ---- the canonical-form hypothesis is necessary: outside it SameAs is asymmetric and the hash differs ---- *)
 Theorem sameAs_noncanonical_asymmetric : exists a b, wf a = true /\ wf b = true /\ num_sem a = num_sem b /\
   sameAs a b = false /\ sameAs b a = true /\ hash a <> hash b.
 Proof. exact Refuted.sameAs_noncanonical_asymmetric. Qed.
@@ -98,5 +108,7 @@ Print Assumptions hash_respects_svz_num.
 Print Assumptions toIntN_eq_spec.
 Print Assumptions toInt32_eq_spec.
 Print Assumptions toUint32_eq_spec.
-Print Assumptions mul_zero_sign_refuted.
+Print Assumptions floatToValue_wf.
+Print Assumptions of_Z_safe_valid.
+Print Assumptions wf_closed_given_prims.
 Print Assumptions sameAs_noncanonical_asymmetric.
